@@ -123,12 +123,25 @@ let f _id vs =
     let mf = show_outcome (stepf tokc) and mc = show_outcome (step api 1 rows psz tyc tokc) in
     let obf = show_obs obsf and oc = show_obs obsc in
     let is_err s = String.length s > 0 && s.[0] <> '0' && s <> "20" in
-    (* property predicate, on the two observations alone: the request fails, or answers as without the fault *)
-    if not (is_err obf || obf = oc) then begin
-      if api = 1 && obf = mf && changes_sql_fault_hit rows badc psz tokc then
-        "KNOWN sqlite_changes_iteration_error_swallowed fault-free=" ^ oc ^ " with-fault=" ^ obf
-      else "PROP storage fault mid-iteration answered without error by a different page: fault-free=" ^ oc ^ " with-fault=" ^ obf ^ " model=" ^ mf
-    end
+    let parts v = match as_list v with
+      | [c; ids; t] -> (as_int c, List.map as_int (as_list ids), hex_of_string (as_bytes t))
+      | _ -> (99, [], "") in
+    (* ReadChanges may also answer with a non-empty prefix of the fault-free page whose token is the
+       position of its last item: a correct prefix continuation *)
+    let prefix_continuation =
+      api = 1 &&
+      (let (cf, idf, tf) = parts obsf and (cc, idc, _) = parts obsc in
+       let rec is_prefix a b = match a, b with
+         | [], _ -> true | x :: a', y :: b' -> x = y && is_prefix a' b' | _ -> false in
+       cf = 0 && cc = 0 && idf <> [] && is_prefix idf idc &&
+       (let last = List.nth idf (List.length idf - 1) in
+        match List.filter (fun (_, id) -> int_of_n id = last) rows with
+        | (k, _) :: _ -> tf = cs k ^ "7c" ^ hex_of_string (as_bytes ty)
+        | [] -> false)) in
+    (* property predicate, on the two observations alone: the request fails, or answers as without the
+       fault, or (ReadChanges) is a correct prefix continuation *)
+    if not (is_err obf || obf = oc || prefix_continuation) then
+      "PROP storage fault mid-iteration answered without error by a page that loses items: fault-free=" ^ oc ^ " with-fault=" ^ obf ^ " model=" ^ mf
     else if oc <> mc then "DIFF fault-free answer model=" ^ mc ^ " impl=" ^ oc
     else if obf = mf then "OK"
     else begin
